@@ -6,6 +6,7 @@ exit 1: `VIOLATION property=<id> replay=<path>` printed
 exit 2: inconclusive (tool failure, timeout, dead driver) -- never a verdict
 """
 import json
+import time
 import os
 import random
 import shutil
@@ -1212,6 +1213,46 @@ def _sig_flusher_window(events):
     return False
 
 
+def apalache_inductive(chk, module, cinit, init, indinit, inv, guard=None, timeout=900):
+    """Init => Inv and Inv /\\ Next => Inv' by Apalache (symbolic: constants left open by `cinit`). `guard` is a textual
+    mutation of the module that must make the induction step fail (vacuity guard). A failure here is about the
+    specification, never a verdict about the code: the check ends inconclusive."""
+    import subprocess
+    wd = vlib.scratch("apa")
+    try:
+        src = open(os.path.join(vlib.VERIF, "spec", module)).read()
+        name = module[:-4]
+
+        def run(mod, text, ini, length):
+            with open(os.path.join(wd, mod + ".tla"), "w") as f:
+                f.write(text.replace("MODULE " + name, "MODULE " + mod))
+            t0 = time.time()
+            p = subprocess.run(["apalache-mc", "check", "--cinit=" + cinit, "--init=" + ini, "--inv=" + inv, "--length=%d" % length,
+                                "--out-dir=" + os.path.join(wd, "out"), mod + ".tla"], cwd=wd, capture_output=True, text=True, timeout=timeout)
+            out = p.stdout + p.stderr
+            ok = "EXITCODE: OK" in out
+            err = "The outcome is: Error" in out
+            return ok, err, round(time.time() - t0, 1), out[-600:]
+        try:
+            ok0, _, t0_, tail0 = run(name, src, init, 0)
+            ok1, _, t1_, tail1 = run(name, src, indinit, 1)
+        except (subprocess.TimeoutExpired, FileNotFoundError) as e:
+            raise Inconclusive("apalache did not finish on %s: %r" % (module, e))
+        st = {"stage": "apalache_inductive:" + module, "init_implies_inv": ok0, "inv_is_inductive": ok1, "wall_s": t0_ + t1_}
+        if guard:
+            a, b = guard
+            assert a in src, "guard text not found in " + module
+            _, gerr, tg, _ = run(name + "Guard", src.replace(a, b), indinit, 1)
+            st["seeded_off_by_one_refuted"] = gerr
+        chk.stages.append(st)
+        if not (ok0 and ok1):
+            raise Inconclusive("apalache does not confirm the inductive invariant of %s: %s %s" % (module, tail0[-200:], tail1[-200:]))
+        if guard and not st["seeded_off_by_one_refuted"]:
+            raise Inconclusive("apalache accepts a seeded off-by-one in %s: the inductive invariant is vacuous" % module)
+    finally:
+        shutil.rmtree(wd, ignore_errors=True)
+
+
 def c17(chk):
     quick = chk.tier == "quick"
     # design: every interleaving of write / delete / reopen with a limit of 2 (the code clamps the limit to >= 100)
@@ -1227,6 +1268,9 @@ def c17(chk):
                 raise Inconclusive("Dirs.tla violates its own properties: " + r.violation[:400])
     finally:
         shutil.rmtree(wd, ignore_errors=True)
+    # the bound for every limit: Apalache discharges the inductive invariant of DirsInd.tla with the limit symbolic
+    apalache_inductive(chk, "DirsInd.tla", cinit="CInit", init="Init", indinit="IndInit", inv="IndInv",
+                       guard=("Full == {d \\in active : cnt[d] >= Limit}", "Full == {d \\in active : cnt[d] > Limit}"))
     # conformance: recorded walks of the roots validated against Dirs.tla with the real limit
     for nroots in (1, 2, 3):
         specs = [dict(seed=vlib.seed() * 7001 + i + 100 * nroots, steps=1200 if quick else 4000, keys=300 if i % 2 == 0 else 40, maxtx=2, roots=nroots,
